@@ -21,9 +21,8 @@ import os
 from hypothesis import strategies as st
 
 import nfc.llcp
-import nfc.llcp.pdu as pdu
 
-from vlib import llcpair, p2p, ref_llcp as ref, ref_window, vsched
+from vlib import p2p, ref_llcp as ref, ref_window, vsched
 from vlib.engine import HarnessError, Leg, Violation, unexpected
 from vlib.llcpair import DATA_LINK_CONNECTION, LlcPair, other
 
@@ -681,7 +680,7 @@ def run_threads(case, ctx):
         finished = sched.run_until(
             lambda: all(n in done for n in names) or errors
             or state["violation"] is not None or pair.result or pair.exc,
-            limit=30.0 + 2.0 * total)
+            limit=10.0 + 0.5 * total)
         if state["violation"] is not None:
             raise state["violation"]
         for name, e in errors:
